@@ -93,14 +93,18 @@ Definition samples_of (tb : tables) : outcome (list sample) :=
   bind (entries tb (t_stsc tb) cu0) (fun ss =>
     if Z.of_nat (length ss) <? t_nsamples tb then Err "tables-describe-fewer-samples" else Ok ss).
 
-(* ---- offsets.go: reading i of n gets start + i*((end-start)/n), in ns ---- *)
+(* ---- offset.go: reading i of n gets start + i*((end-start)/n), in ns ---- *)
 Fixpoint offsets_from (n : nat) (off inc : Z) : list Z :=
   match n with O => [] | S n' => off :: offsets_from n' (i64 (off + inc)) inc end.
-Definition reading_offsets (units : Z) (sm : sample) (n : nat) : list Z :=
+(* offset.go mediaTime (after the repair D27): floor (ticks * 1e9 / timescale) nanoseconds, whole
+   seconds and remaining ticks converted separately, in int64 arithmetic *)
+Definition media_time (ts ticks : Z) : Z :=
+  i64 (i64 ((ticks / ts) * 1000000000) + (ticks mod ts) * 1000000000 / ts).
+Definition reading_offsets (ts : Z) (sm : sample) (n : nat) : list Z :=
   match n with
   | O => []
-  | _ => let start := i64 (sm_start sm * units) in
-         let stop := i64 (sm_end sm * units) in
+  | _ => let start := media_time ts (sm_start sm) in
+         let stop := media_time ts (sm_end sm) in
          offsets_from n start (Z.quot (i64 (stop - start)) (Z.of_nat n))
   end.
 
@@ -112,9 +116,9 @@ Definition offseter_rows (d : data) : option nat :=
   end.
 
 (* sensor elements of a payload, in document order, with the offsets of their readings *)
-Definition payload_offsets (units : Z) (sm : sample) (es : list elem) : list (bytes * list Z) :=
+Definition payload_offsets (ts : Z) (sm : sample) (es : list elem) : list (bytes * list Z) :=
   flat_map (fun e => match offseter_rows (e_data e) with
-                     | Some n => [(e_key e, reading_offsets units sm n)]
+                     | Some n => [(e_key e, reading_offsets ts sm n)]
                      | None => []
                      end) (preorder_all es).
 
@@ -127,13 +131,13 @@ Definition contains (hay needle : string) : bool :=
   existsb (fun k => match String.prefix needle (of_chars (skipn k h)) with true => true | false => false end)
           (seq 0 (S (length h))).
 
-Definition decode_trak (file : bytes) (units : Z) (tb : tables) : outcome (list elem * list (bytes * list Z)) :=
+Definition decode_trak (file : bytes) (ts : Z) (tb : tables) : outcome (list elem * list (bytes * list Z)) :=
   bind (samples_of tb) (fun ss =>
     fold_left (fun acc sm =>
       bind acc (fun '(els, offs) =>
         if 2 ^ 63 <=? sm_off sm then Err "seek" else
         bind (read (slice file (sm_off sm) (sm_size sm))) (fun es =>
-          Ok (els ++ es, offs ++ payload_offsets units sm es)))) ss (Ok ([], []))).
+          Ok (els ++ es, offs ++ payload_offsets ts sm es)))) ss (Ok ([], []))).
 
 Fixpoint decode (file : bytes) (traks : list trak) : outcome (list elem * list (bytes * list Z)) :=
   match traks with
@@ -141,6 +145,6 @@ Fixpoint decode (file : bytes) (traks : list trak) : outcome (list elem * list (
   | tr :: rest =>
     if String.eqb (tr_handler tr) "meta" && contains (tr_name tr) "GoPro MET" then
       if tr_timescale tr =? 0 then Err "zero-timescale" else
-      decode_trak file (Z.quot 1000000000 (tr_timescale tr)) (tr_tables tr)
+      decode_trak file (tr_timescale tr) (tr_tables tr)
     else decode file rest
   end.
